@@ -248,6 +248,38 @@ def run(ctx: Ctx) -> Result:
             excusable = any(c is None for c in cands) or any(c is not None and not isinstance(c, bool) and not fits(c) for c in cands)
             if not excusable:
                 viol(name, {'a': str(a)[:80], 'b': str(b)[:80], 'script': script.hex()[:400]}, 'the exact integer result (it fits the item limit)', f['status'])
+    # n-ary forms close to the item limit: every operand and the exact result fit, partial results (a tail sum, a partial product) do not —
+    # "exact at any magnitude that fits the item limit" is about operands and result, not about an order of evaluation
+    for it in range(ctx.n(240, 2400)):
+        lim = [1024, 4, 8, 2, 33, 1024, 3, 16][it % 8]
+        cfgn = vmrun.Cfg(max_item_size=lim)
+        k = 8 * lim - 2
+        cnt = irng.choice([3, 3, 4, 5, 6])
+        name = ['SUBTRACT_INTS', 'ADD_INTS', 'MULT_INTS', 'SUBTRACT_INTS'][(it // 8) % 4]
+        sg = irng.choice([1, -1])
+        if name == 'SUBTRACT_INTS':
+            tail = [sg * ((1 << k) - irng.randrange(0, 3)) for _ in range(cnt - 1)]
+            first = sum(tail) + irng.choice([0, 1, -1, -sg * (1 << k), irng.randrange(-100, 100)])
+            ops_ = [first] + tail; want = first - sum(tail)
+        elif name == 'ADD_INTS':
+            ops_ = [sg * ((1 << k) - irng.randrange(0, 3)) for _ in range(cnt - 1)]
+            ops_.append(-sum(ops_) + irng.choice([0, 1, -1, sg * (1 << k), irng.randrange(-100, 100)])); irng.shuffle(ops_); want = sum(ops_)
+        else:
+            ops_ = [sg * (1 << (k // 2 + 1)) for _ in range(cnt - 1)] + [irng.choice([0, 0, 1, -1])]; irng.shuffle(ops_)
+            want = 1
+            for x_ in ops_: want *= x_
+        if not all(len(ref_i2b(x_)) <= lim for x_ in ops_ + [want]): continue
+        # the first popped item is the minuend: push the tail first, the first operand last
+        script = b''.join(G.push(ref_i2b(x_)) for x_ in reversed(ops_)) + bytes([N[name], cnt])
+        o = vmrun.run_impl(cfgn, {}, script)
+        run_lines.append(vmrun.case_line('RUN', cfgn, {}, [script])); run_outs.append(o)
+        res.note_case(('nary-near-limit', name, lim, tuple(ops_))); nops += 1
+        f = vmrun.fields(o)
+        top = f.get('stack', '-').split(',')[0] if f['status'] == 'OK' else None
+        if top is None or top in ('-', 'e') or bytes.fromhex(top) != ref_i2b(want):
+            viol(name + f' with {cnt} operands, item limit {lim} bytes: every operand and the exact result fit the limit',
+                 {'operands_top_first': [str(x_)[:60] for x_ in ops_], 'limit': lim, 'script': script.hex()[:400], 'cfg': cfgn.line()},
+                 'stack top ' + ref_i2b(want).hex()[:80], f['status'] + ' ' + str(top)[:80])
     # instructions that *produce* integers from lengths / counts use the same signed encoding (SIZE, DEPTH)
     for n in sorted({0, 1, 2, 126, 127, 128, 129, 200, 254, 255, 256, 257, 511, 512, 1000, 1023, 1024} | {irng.randrange(0, 1025) for _ in range(ctx.n(20, 200))}):
         script = G.push(bytes([7]) * n) + bytes([N['SIZE']]) if n else bytes([N['PUSH1'], 0, N['SIZE']])
